@@ -4,16 +4,29 @@ driver's `ledger` op, i.e. to the Lean-verified monitor Coap.Sessions.ledgerOk; 
 
     <per-event segments> | A <trace> | lsan=<n>      ->      <per-event segments> | ledger=<true|false>:<diagnostic> | lsan=<n>
 
+A line whose LeakSanitizer verdict is not 0 ends its harness process: a leaked object the ledger does not know (plain
+malloc inside libcoap, e.g. a uthash table) would be reported again after every later line of the same process, so the
+following lines run in a fresh process — every line's `lsan=` is about that line alone.
+
 usage: sessions_pipe.py <h_sessions> <drv>      (exit status / stderr of the harness are passed through so that
 the runner's crash attribution keeps working)"""
 import subprocess, sys
 
 h, drv = sys.argv[1], sys.argv[2]
-data = sys.stdin.buffer.read()
-r = subprocess.run([h], input=data, stdout=subprocess.PIPE, stderr=subprocess.PIPE)
-out = r.stdout.decode(errors="replace")
-lines = out.split("\n")
-tail = lines.pop()          # text after the last newline: empty, or the partial line of a crash (dropped)
+inp = sys.stdin.buffer.read().split(b"\n")
+if inp and inp[-1] == b"":
+    inp.pop()
+lines, pos = [], 0
+while True:
+    r = subprocess.run([h], input=b"".join(l + b"\n" for l in inp[pos:]), stdout=subprocess.PIPE, stderr=subprocess.PIPE)
+    got = r.stdout.decode(errors="replace").split("\n")
+    got.pop()               # text after the last newline: empty, or the partial line of a crash (dropped)
+    leak = next((i for i, l in enumerate(got) if " | lsan=" in l and not l.rstrip().endswith(" | lsan=0")), None)
+    if leak is None or pos + leak + 1 >= len(inp):
+        lines += got
+        break
+    lines += got[:leak + 1]             # what follows a leaking line is run again, in a fresh process
+    pos += leak + 1
 jobs, where = [], []
 for i, l in enumerate(lines):
     if " | A " in l:
